@@ -541,8 +541,9 @@ def edges(rng, case, idx):
             M.bucket(case['prop'] + '/edge/E20_requests_that_need_nothing')
             mw = rng.choice([150000, 66000, 507.18, 58.44])
             big = S.solid('IgG', mw)
-            conc = rng.choice(['0.5 mg/mL', '50 ug/mL', '5 mg/mL', '1 mg/mL'])
-            stock, exc = attempt(lambda: C.create_solution(big, water, concentration=conc, total_quantity='1.5 mL'))
+            conc = rng.choice(['0.5 mg/mL', '50 ug/mL', '5 mg/mL', '1 mg/mL', '7 ug/mL', '3 ug/mL'])
+            whole, part = rng.choice([('1.5 mL', '0.5 mL'), ('250 uL', '125 uL'), ('100 uL', '40 uL'), ('1.5 mL', '0.5 mL')])
+            stock, exc = attempt(lambda: C.create_solution(big, water, concentration=conc, total_quantity=whole))
             if exc is None:
                 plate = pp.Plate('p', '100 uL', rows=2, columns=2)
                 res, exc = attempt(lambda: pp.Plate.transfer(stock, plate['A:1'], '20 uL'))
@@ -551,7 +552,7 @@ def edges(rng, case, idx):
                     if exc2 is not None:
                         viol(['C18', 'C03', 'C11'], f'C03:top_up_to_the_volume_just_dispensed_refused:{type(exc2).__name__}', {'solute_molar_mass': mw, 'concentration': conc, 'exc': repr(exc2)[:120]})
                 M.expect = {'op': 'Container.create_solution_from', 'must': 'accept', 'tag': 'the_concentration_it_was_made_with'}
-                attempt(lambda: C.create_solution_from(stock, big, conc, water, '0.5 mL'))
+                attempt(lambda: C.create_solution_from(stock, big, conc, water, part))
                 M.expect = None
                 _, exc3 = attempt(lambda: stock.dilute(big, conc, water))
                 if exc3 is not None:
@@ -793,7 +794,7 @@ def edges(rng, case, idx):
             if zero_volume:
                 M.bucket(case['prop'] + '/edge/E28_a_diluent_without_volume')
                 stock = C.create_solution(salt, water, concentration='1 M', total_quantity='10 mL')
-                for target, tot in (('0.5 M', '10 mL'), ('0.1 M', '5 mL'), ('10 %w/w', '5 g')):
+                for target, tot in (('0.5 M', '10 mL'), ('0.1 M', '5 mL'), ('10 %w/w', '5 g'), ('0.01 mol/mol', '10 mL'), ('0.005 mol/mol', '2 mL'), ('2 %v/v', '10 mL')):
                     res, exc = attempt(lambda: C.create_solution_from(stock, salt, target, suc, tot))
                     if exc is None:
                         viol(['C12', 'C03', 'C19'], 'C12:diluent_without_volume_accepted', {'target': target, 'total': tot, 'instructions': (res[1].instructions or '')[-120:]})
